@@ -283,3 +283,68 @@ Definition n3_spec (mode H : N) (um : bool) (ps : list n3proof) (verdicts : list
   (if mode =? mode_enforce
    then (hashes <=? H) && forallb (fun o : N * N => negb (fst o =? 1) || ((snd o =? kind_nsec3_hash) && (hashes =? H))) verdicts
    else forallb (fun o : N * N => negb (fst o =? 1)) verdicts && (first =? 0)).
+
+(* ---- the record set itself (wave 9): what a name's lookup finds is no longer handed over by the driver but computed
+   here from the NSEC3 records of the response, with the srcgen translations of the two functions the evaluator uses:
+   dnssec.aggressiveNSEC3Covers (does the interval owner -> next of a record cover a hash: bytes.Compare on the digests)
+   and dnssec.typesSet (is one of these types in the bitmap: Go's map-as-set idiom).  Digests are given by their first
+   [hash_octets] octets as one number (the driver checks that distinct digests of a case differ within them, so order
+   and equality are those of the full digests); [ring_look] mirrors nsec3RingEvaluator.lookup: the record whose owner
+   hash equals the name's, every other record whose interval covers it; two covers, or a match that is also covered, are
+   ambiguous. *)
+Definition hash_octets : nat := 6.
+Fixpoint bytes_of (k : nat) (v : N) : list N :=
+  match k with O => [] | S k' => (v / 256 ^ N.of_nat k') mod 256 :: bytes_of k' v end.
+(* owner hash, next hash, Opt-Out, type bitmap *)
+Definition ringrec : Type := (N * N * bool * list N)%type.
+Definition ring_entry (r : ringrec) : T_aggressiveNSEC3Entry :=
+  let '(o, n, _, _) := r in
+  mk_T_aggressiveNSEC3Entry (n3_record (1, 0, 0)) (bytes_of hash_octets o) (bytes_of hash_octets n).
+(* the type facts the verifiers ask of a matching record, each by typesSet as the Go code calls it:
+   (qtype, CNAME) / SOA / NS / DNAME / DS *)
+Definition ring_tys_with (has : list N -> list N -> bool) (qt : N) (types : list N) : N :=
+  (if has types [qt; 5] then 1 else 0) + (if has types [6] then 2 else 0) +
+  (if has types [2] then 4 else 0) + (if has types [39] then 8 else 0) +
+  (if has types [43] then 16 else 0).
+Definition ring_look_with (cov : ringrec -> N -> bool) (has : list N -> list N -> bool) (qt : N) (ring : list ringrec) (h : N)
+    : N * bool * N :=
+  let ms := filter (fun r : ringrec => let '(o, _, _, _) := r in o =? h) ring in
+  let cs := filter (fun r : ringrec => let '(o, _, _, _) := r in negb (o =? h) && cov r h) ring in
+  match ms, cs with
+  | _, _ :: _ :: _ => (3, false, 0)
+  | _ :: _, _ :: _ => (3, false, 0)
+  | (_, _, _, types) :: _, [] => (1, false, ring_tys_with has qt types)
+  | [], [(_, _, oo, _)] => (2, oo, 0)
+  | [], [] => (0, false, 0)
+  end.
+(* the model: the translated functions, on the digests as octet strings *)
+Definition cov_code (r : ringrec) (h : N) : bool := go_aggressiveNSEC3Covers (ring_entry r) (bytes_of hash_octets h).
+Definition ring_tys (qt : N) (types : list N) : N := ring_tys_with go_typesSet qt types.
+Definition ring_look (qt : N) (ring : list ringrec) (h : N) : N * bool * N := ring_look_with cov_code go_typesSet qt ring h.
+(* the specification: RFC 5155 interval arithmetic on the digests as numbers — a one-record ring covers everything but
+   its owner, an ordinary interval is open on both sides, the last interval of the ring wraps around — and plain
+   membership in the type bitmap; Proofs_n3ring.v proves that the translated cover test is this one *)
+Definition covers_spec (o n h : N) : bool :=
+  if o =? n then negb (h =? o)
+  else if o <? n then (o <? h) && (h <? n)
+  else (o <? h) || (h <? n).
+Definition cov_spec (r : ringrec) (h : N) : bool := let '(o, n, _, _) := r in covers_spec o n h.
+Definition has_spec (set types : list N) : bool := existsb (fun t => existsb (N.eqb t) types) set.
+(* a name as the driver gives it: preimage identity, inside the signer zone, its digest *)
+Definition rname : Type := (nat * bool * N)%type.
+Definition n3_of_rname (look : N -> list ringrec -> N -> N * bool * N) (qt : N) (ring : list ringrec) (x : rname) : n3name :=
+  let '(id, inz, h) := x in
+  if inz then let '(lk, oo, tys) := look qt ring h in mk_n3 id true lk oo tys
+  else mk_n3 id false 0 false 0.
+(* kind, DS question, record parameters, mixed set, question type, the usable records, the suffix chain *)
+Definition n3rproof : Type := (N * bool * (N * N * N) * bool * N * list ringrec * list (rname * rname))%type.
+Definition n3_of_rproof (look : N -> list ringrec -> N -> N * bool * N) (p : n3rproof) : n3proof :=
+  let '(kind, isds, par, mixed, qt, ring, chain) := p in
+  (kind, isds, par, mixed, map (fun e : rname * rname => (n3_of_rname look qt ring (fst e), n3_of_rname look qt ring (snd e))) chain).
+(* model = observed: the lookups decided by the translated functions *)
+Definition n3r_check (mode H : N) (um : bool) (ps : list n3rproof) (verdicts : list (N * N)) (hashes exh first : N) : bool :=
+  n3_check mode H um (map (n3_of_rproof ring_look) ps) verdicts hashes exh first.
+(* the specification, judged with RFC 5155's interval arithmetic on the digests and plain bitmap membership — no
+   translated function: what the code hashed must fit the shapes these give *)
+Definition n3r_spec (mode H : N) (um : bool) (ps : list n3rproof) (verdicts : list (N * N)) (hashes exh first : N) : bool :=
+  n3_spec mode H um (map (n3_of_rproof (ring_look_with cov_spec has_spec)) ps) verdicts hashes exh first.
